@@ -75,6 +75,7 @@ static int fault(const char *call, long *arg = nullptr)
 {
 	Kernel &k = K();
 	k.calls_this_iter++;
+	{ size_t a = cjet_get_alloc_size(); if (a > k.max_accounted) k.max_accounted = a; }
 	long n = k.call_count[call]++;
 	for (auto &f : k.faults) {
 		if (f.nth == n && f.call == call) { if (arg) *arg = f.arg; return f.err; }
